@@ -5,20 +5,93 @@ import os
 
 VERIF = os.path.dirname(os.path.dirname(os.path.abspath(__file__)))
 
+CORR = ("; the model is defined over constants extracted from the source on every run and is tied to the Python by a "
+        "differential correspondence run (boundary-directed generators) plus an independent property oracle on the real code")
+NOTE = ("Lean kernel + propext/Classical.choice/Quot.sound (audited per theorem); Python control flow hand-modelled and tied by "
+        "correspondence only; ")
+TECH = "Lean 4 theorems over an executable model + model/implementation correspondence"
+
 CLAIMED = {
     # pid: (design section, text, note, technique)
-    "C10": ("§5 C10",
-            "Lean 4 theorems (decode∘encode = id on non-empty bytes, encode∘decode = id on non-empty alphabet strings, "
-            "leading zeros ↔ leading '1', checksummed decoder accepts iff the checksum matches, foreign characters and "
-            "too-short strings rejected) about a model defined over the alphabet extracted from the source on every run; "
-            "the model is tied to helper.py by a differential run on boundary and mutation-shaped inputs. For all byte "
-            "strings / strings, which no finite test list reaches.",
-            "double SHA-256 is a parameter (only output length >= 4 is used); Python control flow is hand-modelled and "
-            "tied by correspondence; Lean kernel + propext/Classical.choice/Quot.sound",
-            "Lean 4 proof (induction via Nat.digits) + model/implementation correspondence"),
+    "C01": ("§5 C01", "Lean theorems: the model of PrvKeyNode.ckd equals a CKDpriv written from the BIP32 text for every valid parent "
+            "(32/33-byte key form), every index < 2^32 and EVERY primitive instance (hence every PRF output: IL+k wrap-around, "
+            "leading-zero children, IL >= n, zero key); lifted to paths of any length by induction; xprv/xpub strings are the "
+            "Base58Check of the BIP32 layout" + CORR,
+            NOTE + "HMAC-SHA512, HASH160 and the curve are parameters (assumed to be what hashlib/python-ecdsa compute; compared on every case)", TECH),
+    "C02": ("§5 C02", "Lean theorems: CKDpub(neuter parent) = neuter(CKDpriv parent) on every normal index and, by induction, on every "
+            "normal path; hardened indexes refused on public nodes before any primitive is called" + CORR,
+            NOTE + "curve group laws (mulGen additive, a*G = inf iff n | a, parse(sec P) = P) and HMAC output length are explicit "
+            "hypotheses (GroupLaws), assumed for secp256k1/python-ecdsa; the IL = 0 corner (PRF substitution only) is excluded by hypothesis", TECH),
+    "C03": ("§5 C03", "Lean theorems: seed = PBKDF2(utf8(NFKD m), utf8('mnemonic' ++ NFKD p), 2048); master = split HMAC('Bitcoin seed'); the "
+            "five constructors yield the same master key material; the network flag never enters key material" + CORR,
+            NOTE + "PARTIAL: NFKD tables (CPython unicodedata), PBKDF2 and HMAC are parameters, not verified", TECH),
+    "C04": ("§5 C04", "Lean theorems: for 16/20/24/28/32-byte entropy the sentence has 12..24 words and its word indexes decode bit-exactly to "
+            "entropy || first ENT/32 bits of SHA-256; every other decoded size and malformed hex is rejected; the embedded list equals "
+            "a frozen copy of the official list (kernel-checked), is strictly sorted and injective" + CORR,
+            NOTE + "SHA-256 is a parameter (32-byte output assumed); the frozen official list is anchored by its SHA-256 digest checked by the harness", TECH),
+    "C05": ("§5 C05", "Lean theorems: each of the five address kinds on both networks decodes (with the decoders proved inverse in C10/C11) to the "
+            "expected version byte / witness version and hash; script templates; RIPEMD-160 padding for every length and tables = spec" + CORR,
+            NOTE + "SHA-256 is a parameter; RIPEMD-160's 80-step compression is mirrored and compared with OpenSSL for all lengths 0..1024 (testing)", TECH),
+    "C06": ("§5 C06", "Lean theorems about the report model: account path/coin/SLIP-132 versions, exactly one row per index in order, row fields "
+            "belong to one key, master echo, Wasabi export" + CORR,
+            NOTE + "PARTIAL: the JSON text layer (CPython json) is trusted and only checked on the implementation", TECH),
+    "C07": ("§5 C07", "Lean theorems: 78-byte layout, parse(serialize) node-equal and re-serialises identically for private and public nodes, "
+            "111 characters for all 12 versions (numeric bounds), version table bijection and rejection of unknown versions, public "
+            "serialisation factors through the public view, master zeros" + CORR,
+            NOTE + "curve sec/parse facts are explicit CurveLaws hypotheses", TECH),
+    "C08": ("§5 C08", "Lean theorems: getrandbits requests exactly ENT/8 bytes once, the mnemonic's entropy IS the OS bytes (identity map, so "
+            "every bit incl. the MSB is an OS bit and distinct OS outputs give distinct mnemonics), no PRNG-state argument exists; bad "
+            "lengths rejected" + CORR + "; os.urandom is observed/stubbed from outside, PRNG re-seeded",
+            NOTE + "PARTIAL by nature: that bip39.random is a SystemRandom over os.urandom and that the kernel CSPRNG is unpredictable are not theorems", TECH),
+    "C09": ("§5 C09", "Lean theorems: WIF payload, first-character classes (numeric bounds over the whole 256-bit range), fromWif(wif k) = k for the "
+            "four flavours, rejection of 0 / >= n / wrong length, SEC round trip from CurveLaws" + CORR,
+            NOTE + "curve facts are CurveLaws hypotheses; the concrete curve is compared with python-ecdsa (testing)", TECH),
+    "C10": ("§5 C10", "Lean theorems: decode(encode b) = b on non-empty bytes, encode(decode s) = s on non-empty alphabet strings, leading zeros <-> "
+            "leading '1', checksummed decoder accepts iff the checksum matches, foreign characters and too-short strings rejected" + CORR,
+            NOTE + "double SHA-256 is a parameter (only output length >= 4 is used)", TECH),
+    "C11": ("§5 C11", "Lean theorems: encode succeeds exactly on legal (hrp, version, program) and decodes back; checksum constant by version; every "
+            "rejection rule; convertbits round trip for every byte list; AND kernel-checked GF(2) linear algebra: no error pattern of weight "
+            "<= 4 has zero syndrome and none of weight <= 3 maps one checksum constant to the other, at every data length <= 71" + CORR,
+            NOTE + "BCH facts are `decide +kernel` evaluations split over generated row modules, re-checked against the generator words in the source", TECH),
+    "C12": ("§5 C12", "Lean theorems: each BIP85 application = HMAC('bip-entropy-from-k', key at the fully hardened template path) sliced as "
+            "specified; parameter/index bounds enforced (negative or >= 2^31 indexes rejected); template paths injective" + CORR,
+            NOTE + "HMAC, SHA-256 and the curve are parameters", TECH),
+    "C13": ("§5 C13", "Lean theorems: refinement of the state machine of API calls on shared node/wallet/generator objects to a stateless function "
+            "of (root, path, parameters): every table entry is a pure derivation of the root; the root is never modified; path "
+            "concatenation; generator indexes" + CORR + " on random op histories, re-run stateless and multi-threaded",
+            NOTE + "PARTIAL for schedules: atoms are whole API calls; CPython's atomic list.append / re-entrant hashlib+ecdsa are trusted", TECH),
+    "C14": ("§5 C14", "Lean theorems: a wallet imported from an extended public key is watch-only, has no BIP85, yields no WIF / extended private key, "
+            "refuses hardened derivation, and agrees with the full wallet on every normal sub-path (via C02)" + CORR,
+            NOTE + "GroupLaws hypotheses (through C02)", TECH),
+    "C15": ("§5 C15", "Lean theorems: the filtered report has exactly the whitelisted public positions (account path/pub, row path/address/SEC), no "
+            "null and no other leaf, at every depth; public leaves identical to the unfiltered report" + CORR + " incl. a leak scanner",
+            NOTE + "secrets are characterised by position; decodability of leaves as private encodings is checked by the oracle on the real output", TECH),
+    "C16": ("§5 C16", "Lean theorems: every constructor makes wallet.testnet = master.testnet and derivation preserves it; address/WIF/extended-key/"
+            "coin-type tags follow that flag; imported wallets take the flag of the version prefix" + CORR,
+            NOTE + "the BIP85 block is governed by C12 (BIP85 fixes mainnet encodings) and excluded here", TECH),
+    "C17": ("§5 C17", "Lean theorems: parse(format p) = p for <= 5 levels, exact characterisation of accepted strings (parse_iff), ' == h, by-path = "
+            "fold of ckd, every malformed component class rejected; the depth clause is FALSE of the code (K1, pinned by the tests): "
+            "parse_deep_fails + parse_honours_all_partial" + CORR,
+            NOTE + "known finding K1 is reported as KNOWN-FINDING, any other failure as violation", TECH),
+    "C18": ("§5 C18", "Lean theorems, for every PRF output: master fails iff IL = 0 or IL >= n; CKDpriv fails iff IL >= n or (IL+k) mod n = 0; CKDpub "
+            "fails when IL >= n or the sum is infinity and any returned child is valid; BIP85 WIF/XPRV refused for secret 0 or >= n" + CORR
+            + " with the PRF substituted from outside",
+            NOTE + "the PRF is a parameter (that is the point)", TECH),
+    "C19": ("§5 C19", "Lean theorems: parse(serialize cs ++ rest) = (cs, rest) for well-formed scripts, exact characterisation of accepted inputs "
+            "(parse_iff) so truncated input is never accepted, push forms at 75/76/255/256/520/521, varint round trip / minimality / "
+            ">= 2^64 refused / truncation rejected" + CORR + " with exhaustive element lengths 0..522 and all prefixes",
+            NOTE + "opcode bytes 1..77 are push prefixes and excluded from round-trip scripts (Cmd.WF)", TECH),
+    "C20": ("§5 C20", "Lean theorems about the CLI model (validators + dispatch over a canonical argv grammar): reject => no report; emit => report = "
+            "(paranoia?) generate(ctor(args)); file target only for an absent path; rows BIP44-shaped when interval end <= 2^31 "
+            "(the full clause is FALSE of the code: K2, pinned by the tests)" + CORR + " running main() in-process and as subprocess",
+            NOTE + "PARTIAL: argparse outside the canonical grammar and the real file system are not modelled; K2 reported as KNOWN-FINDING", TECH),
 }
 
 NOT_YET = {}
+
+
+def _has_props(pid):
+    return os.path.exists(os.path.join(VERIF, "lean", "BtcHd", "Props", pid + ".lean"))
 
 
 def main():
@@ -26,7 +99,7 @@ def main():
     checks = []
     for p in props:
         pid = p["id"]
-        if pid not in CLAIMED:
+        if pid not in CLAIMED or not _has_props(pid):
             continue
         sec, text, note, tech = CLAIMED[pid]
         checks.append({
@@ -41,7 +114,7 @@ def main():
             "technique": tech,
         })
     na = [{"property_id": p["id"], "reason": NOT_YET.get(p["id"], "check not built yet in this round (planned: see DESIGN.md §5); not claimed until its theorems and correspondence exist")}
-          for p in props if p["id"] not in CLAIMED]
+          for p in props if p["id"] not in CLAIMED or not _has_props(p["id"])]
     man = {
         "version": 1,
         "setup_cmd": "/venv/bin/python harness/extract.py && cd lean && lake build BtcHd driver",
@@ -54,7 +127,7 @@ def main():
         },
         "engines": [{
             "name": "lean4-model-correspondence", "path": "harness/check.py",
-            "serves_properties": sorted(CLAIMED),
+            "serves_properties": sorted(p for p in CLAIMED if _has_props(p)),
             "kind_free_text": "Lean 4 theorems about an executable model (lean/BtcHd) whose constants are regenerated from /repo on every run, plus a differential correspondence check model vs implementation over a line protocol (Driver/Main.lean vs harness/impl.py), plus property oracles on the real code for the failing-input search",
         }],
         "checks": checks,
